@@ -393,6 +393,59 @@ INTRUDERS = [
 ]
 
 
+def orphaned_pending_scenarios(p):
+    """State that outlives its reason: entries delivered to a consumer stay in the group's pending list
+    when XDEL / XTRIM / DEL removes them from the stream (by design, as in Redis). Every group command is
+    then run on such IDs - the first, the last, all of them gone. Oracle: child alive, sentinels."""
+    res = p.res
+    K = b"c:orph"
+    removals = [("xdel-last", [[b"XDEL", K, b"3-1"]]), ("xdel-first", [[b"XDEL", K, b"1-1"]]), ("xdel-middle", [[b"XDEL", K, b"2-1"]]),
+                ("xdel-all", [[b"XDEL", K, b"1-1", b"2-1", b"3-1"]]), ("xtrim-0", [[b"XTRIM", K, b"MAXLEN", b"0"]]),
+                ("xtrim-1", [[b"XTRIM", K, b"MAXLEN", b"1"]]), ("xdel-last-then-add", [[b"XDEL", K, b"3-1"], [b"XADD", K, b"9-9", b"f", b"v"]])]
+    followups = [[b"XCLAIM", K, b"g", b"rescuer", b"0", b"ID"], [b"XCLAIM", K, b"g", b"rescuer", b"0", b"1-1", b"2-1", b"3-1"],
+                 [b"XCLAIM", K, b"g", b"rescuer", b"0", b"ID", b"JUSTID"], [b"XCLAIM", K, b"g", b"rescuer", b"0", b"ID", b"FORCE"],
+                 [b"XAUTOCLAIM", K, b"g", b"rescuer", b"0", b"0-0"], [b"XPENDING", K, b"g"], [b"XPENDING", K, b"g", b"-", b"+", b"10"],
+                 [b"XPENDING", K, b"g", b"ID", b"ID", b"1"], [b"XREADGROUP", b"GROUP", b"g", b"worker", b"STREAMS", K, b"0"],
+                 [b"XREADGROUP", b"GROUP", b"g", b"worker", b"COUNT", b"1", b"STREAMS", K, b"ID"], [b"XREADGROUP", b"GROUP", b"g", b"worker", b"STREAMS", K, b">"],
+                 [b"XACK", K, b"g", b"ID"], [b"XACK", K, b"g", b"1-1", b"2-1", b"3-1"], [b"XINFO", b"STREAM", K], [b"XINFO", b"GROUPS", K],
+                 [b"XINFO", b"CONSUMERS", K, b"g"], [b"XGROUP", b"SETID", K, b"g", b"ID"], [b"XGROUP", b"DELCONSUMER", K, b"g", b"worker"],
+                 [b"XGROUP", b"DESTROY", K, b"g"], [b"XRANGE", K, b"ID", b"+"], [b"XDEL", K, b"ID"], [b"SAVE"], [b"DEL", K]]
+    for rname, removal in removals:
+        for idb in (b"1-1", b"2-1", b"3-1"):
+            for f in followups:
+                if b"ID" not in f and idb != b"3-1":
+                    continue
+                cmd = [idb if x == b"ID" else x for x in f]
+                res.evaluations += 1
+                label = "%s/%s/%s" % (rname, b" ".join(f[:2]).decode(), idb.decode())
+                try:
+                    c = p.c
+                    c.cmd("DEL", K)
+                    for i in (b"1-1", b"2-1", b"3-1"):
+                        c.cmd("XADD", K, i, "f", "v")
+                    c.cmd("XGROUP", "CREATE", K, "g", "0")
+                    c.cmd("XREADGROUP", "GROUP", "g", "worker", "STREAMS", K, ">")
+                    for r in removal:
+                        c.cmd(*r)
+                    c.cmd(*cmd)
+                    c.cmd("PING")
+                except (Closed, Timeout, OSError):
+                    pass
+                res.cell("orphaned-pending", rname, b" ".join(f[:2]).decode())
+                if not p.srv.alive() or p.c.closed:
+                    p.srv.settle(3.0)
+                if not p.srv.alive():
+                    err = p.srv.stderr_text()
+                    res.violation("crash/orphaned-pending/%s/%s" % (f[0].decode(), first_ferrous_frame(err[-6000:])),
+                                  "(%s build) server exited %s: entries 1-1 2-1 3-1 delivered to a consumer, then %s, then %s\n%s" % (
+                                      p.profile, p.srv.exit_status(), resp.show(removal, 30), resp.show(cmd, 30), err[-1500:]),
+                                  {"scenario": label})
+                    p.restart()
+                elif p.c.closed:
+                    p.restart()
+    p.check_sentinels("orphaned-pending")
+
+
 def blocked_scenarios(p):
     """Hostile sequences that need a second connection: a client parked in a blocking pop
     while another client replaces, retypes, deletes, expires or flushes the key it waits on
@@ -787,6 +840,8 @@ def worker(shard, binary, nshards, tier, seed, profile, extra_env=None):
             non_reading_client(p)
         if shard == 6 % nshards:
             pubsub_hostile(p)
+        if shard == 7 % nshards:
+            orphaned_pending_scenarios(p)
     except SeedingFailed:
         pass
     finally:
